@@ -599,9 +599,9 @@ func c12ErrClass(s string) string {
 			sb.WriteRune(r)
 		}
 	}
-	out := sb.String()
+	out := []rune(sb.String())
 	if len(out) > 90 {
 		out = out[:90]
 	}
-	return out
+	return string(out)
 }
